@@ -16,10 +16,14 @@ State = the dictionaries of the class, as association lists in *dict insertion o
            has the boundary grids of these entries as keys, in the same order.
 * `nextBg` boundary grids are created *inside* the container, so their creation counter is state.
 
-The model follows the property, i.e. the code with the four small repairs proposed in
-/verif/fixes/C24-*.diff (validation before mutation in `add_interface`, duplicate check inside
-one `add_subdomains` call, `remove_subdomain` / `replace…` on a subdomain that carries an
-interface to itself).  Everything else is branch for branch what md_grid.py does.
+The model is branch for branch what md_grid.py does NOW (after the `fix:` commits: validation
+before mutation in `add_interface`, duplicate check inside one `add_subdomains` call,
+`remove_subdomain` / `replace…` on a subdomain that carries an interface to itself), with one
+repair still open (fixes/C24-replace-exception-safe.diff): an `sd_map` item whose mortar update
+raises leaves the container as it was (the code as it stands leaves it half-updated).
+
+Layers: `State` (graph), `DState` (graph + identity of the data dictionaries), `World`
+(several containers produced by `copy()`, sharing objects and the class-level id counters).
 -/
 namespace PorepyVerif.C24
 
@@ -29,7 +33,7 @@ structure Universe where
   ifCodim : Nat → Nat
 
 inductive Err where
-  | valueError | keyError | assertionError | indexError
+  | valueError | keyError | assertionError | indexError | notImplementedError
   deriving DecidableEq, Repr
 
 /-- stored interface entry: (interface, first, second) -/
@@ -171,13 +175,13 @@ def hasDup : List Nat → Bool
   | [] => false
   | x :: l => l.contains x || hasDup l
 
-/-- `add_subdomains` (repaired: a grid listed twice in one call is rejected like a present one) -/
+/-- `add_subdomains` (a grid listed twice in one call is rejected like a present one) -/
 def addSubdomains (U : Universe) (s : State) (gs : List Nat) : Except Err State :=
   if gs.any (fun g => s.sds.contains g) then .error .valueError
   else if hasDup gs then .error .valueError
   else .ok (gs.foldl (addOne U) s)
 
-/-- `add_interface` (repaired: nothing is stored before all checks have passed) -/
+/-- `add_interface` (nothing is stored before all checks have passed) -/
 def addInterface (U : Universe) (s : State) (i : Nat) (pair : List Nat) : Except Err State :=
   match pair with
   | [a, b] =>
@@ -189,8 +193,7 @@ def addInterface (U : Universe) (s : State) (i : Nat) (pair : List Nat) : Except
       | .ok (x, y) => .ok { s with pairs := s.pairs ++ [(i, x, y)] }
   | _ => .error .valueError
 
-/-- `remove_subdomain` (repaired: the interfaces to delete are found from the stored pairs, not
-    from the sorted listing computed after the subdomain has gone) -/
+/-- `remove_subdomain` (the interfaces to delete are found from the stored pairs) -/
 def removeSubdomain (s : State) (g : Nat) : Except Err State :=
   if !s.sds.contains g then .error .keyError
   else .ok { s with
@@ -207,7 +210,7 @@ def sort2 (U : Universe) (a b : Nat) : Nat × Nat :=
 def sub (old new x : Nat) : Nat := if x == old then new else x
 
 /-- loop body of `replace_subdomains_and_interfaces` for one interface: the *sorted* pair with
-    `old` replaced is stored (repaired: in both positions for an interface from `old` to itself) -/
+    `old` replaced is stored (in both positions for an interface from `old` to itself) -/
 def replaceEntry (U : Universe) (old new : Nat) (p : Entry) : Entry :=
   if touches old p then
     let q := sort2 U p.2.1 p.2.2
@@ -229,22 +232,46 @@ def callsFor (U : Universe) (s : State) (old new : Nat) (i : Nat) : List Call :=
     (if q.1 == old then [Call.primary i new old] else []) ++
     (if q.2 == old then [Call.secondary i new] else [])
 
-/-- one `sd_old ↦ sd_new` item of `replace_subdomains_and_interfaces`.
+/-- the dimension guards of `MortarGrid.update_primary` (implemented for mortar grids of dimension
+    0 and 1 only) and `update_secondary` (the new grid must have the dimension of the mortar grid):
+    these calls raise `NotImplementedError` whatever the geometry.  Failures that depend on the
+    geometry (non-matching grids) are outside the model. -/
+def callFails (U : Universe) : Call → Bool
+  | .mortar _ => false
+  | .primary i _ _ => decide (2 ≤ U.ifDim i)
+  | .secondary i new => U.ifDim i != U.sdDim new
+
+/-- the calls actually made: up to and including the first one that raises -/
+def madeCalls (U : Universe) : List Call → List Call
+  | [] => []
+  | c :: l => if callFails U c then [c] else c :: madeCalls U l
+
+/-- the mortar updates one `sd_old ↦ sd_new` item will attempt, in the order of the sorted list
+    `subdomain_to_interfaces(sd_old)` -/
+def plannedCalls (U : Universe) (s : State) (old new : Nat) : List Call :=
+  (argsortFrom U.ifDim id (dimMax U s.sds) ((s.pairs.filter (touches old)).map (·.1))).flatMap
+    (callsFor U s old new)
+
+/-- the state after a completed item -/
+def replaceState (U : Universe) (s : State) (old new : Nat) : State :=
+  let sds' := (if s.sds.contains new then s.sds else s.sds ++ [new]).filter (· != old)
+  let pairs' := s.pairs.map (replaceEntry U old new)
+  if s.bgs.any (fun b => b.1 == old) then
+    { sds := sds', pairs := pairs',
+      bgs := (s.bgs ++ [(new, s.nextBg)]).filter (fun b => b.1 != old), nextBg := s.nextBg + 1 }
+  else { s with sds := sds', pairs := pairs' }
+
+/-- one `sd_old ↦ sd_new` item of `replace_subdomains_and_interfaces` (two stages: first the
+    mortar updates and the new boundary grid, which may raise; then the dictionaries).
     Pairs are re-sorted with `sort2`; in the code this is `interface_to_subdomain_pair`, which
-    cannot fail when both stored subdomains are present (lemma `sortPair_eq_sort2`). -/
-def replace1 (U : Universe) (s : State) (old new : Nat) : Except Err (State × List Call) :=
-  if !s.sds.contains old then .error .keyError
-  else
-    let sds1 := if s.sds.contains new then s.sds else s.sds ++ [new]
-    let order := argsortFrom U.ifDim id (dimMax U sds1) ((s.pairs.filter (touches old)).map (·.1))
-    let calls := order.flatMap (callsFor U s old new)
-    let pairs' := s.pairs.map (replaceEntry U old new)
-    let sds' := sds1.filter (· != old)
-    if s.bgs.any (fun b => b.1 == old) then
-      .ok ({ sds := sds', pairs := pairs',
-             bgs := (s.bgs ++ [(new, s.nextBg)]).filter (fun b => b.1 != old),
-             nextBg := s.nextBg + 1 }, calls)
-    else .ok ({ s with sds := sds', pairs := pairs' }, calls)
+    cannot fail when both stored subdomains are present (lemma `sortPair_eq_sort2`).
+    The error carries the mortar calls made before (and including) the one that raised. -/
+def replace1 (U : Universe) (s : State) (old new : Nat) :
+    Except (Err × List Call) (State × List Call) :=
+  if !s.sds.contains old then .error (.keyError, [])
+  else if (plannedCalls U s old new).any (callFails U) then
+    .error (.notImplementedError, madeCalls U (plannedCalls U s old new))
+  else .ok (replaceState U s old new, plannedCalls U s old new)
 
 /-- the `sd_map` loop: items are applied one after the other; the first failing item stops the
     call and leaves the earlier items applied (as in the code) -/
@@ -252,7 +279,7 @@ def replaceMany (U : Universe) (s : State) : List (Nat × Nat) → State × Opti
   | [] => (s, none, [])
   | (old, new) :: rest =>
     match replace1 U s old new with
-    | .error e => (s, some e, [])
+    | .error (e, c) => (s, some e, c)
     | .ok (s', c) =>
       let r := replaceMany U s' rest
       (r.1, r.2.1, c ++ r.2.2)
@@ -319,5 +346,163 @@ def wfOp (U : Universe) (s : State) : Op → Bool
 def wfHist (U : Universe) (s : State) : List Op → Bool
   | [] => true
   | op :: ops => wfOp U s op && wfHist U (step U s op).state ops
+
+
+/-! ### data dictionaries
+
+Every subdomain, interface and boundary grid of the container owns a data dictionary
+(`_subdomain_data[sd]`, `_interface_data[intf]`, `_boundary_grid_data[bg]`).  What matters for
+the container is the *identity* of these dictionaries: a fresh one is created by `add_…`,
+`replace…` hands the old grid's dictionary (and its boundary grid's) over to the new grid,
+`copy()` shares them.  Identity is modelled by a token from a creation counter. -/
+
+structure DState where
+  core : State
+  /-- subdomain ↦ token of `_subdomain_data[sd]` (same key order as `core.sds`) -/
+  sdData : List (Nat × Nat)
+  /-- interface ↦ token of `_interface_data[intf]` -/
+  ifData : List (Nat × Nat)
+  /-- boundary-grid id ↦ token of `_boundary_grid_data[bg]` -/
+  bgData : List (Nat × Nat)
+  nextTok : Nat
+  deriving DecidableEq, Repr
+
+def DState.empty : DState := ⟨State.empty, [], [], [], 0⟩
+
+/-- `subdomain_data(sd)`: which dictionary (`none` = KeyError) -/
+def dataOfSd (d : DState) (g : Nat) : Option Nat := lookup g d.sdData
+/-- `interface_data(intf)` -/
+def dataOfIf (d : DState) (i : Nat) : Option Nat := lookup i d.ifData
+/-- `boundary_grid_data(bg)` -/
+def dataOfBg (d : DState) (b : Nat) : Option Nat := lookup b d.bgData
+
+/-- fresh dictionaries for the given keys -/
+def freshFor : List Nat → Nat → List (Nat × Nat)
+  | [], _ => []
+  | k :: ks, t => (k, t) :: freshFor ks (t + 1)
+
+def dAddSubdomains (U : Universe) (d : DState) (gs : List Nat) : Except Err DState :=
+  match addSubdomains U d.core gs with
+  | .error e => .error e
+  | .ok s' =>
+    let newBg := (s'.bgs.drop d.core.bgs.length).map (·.2)
+    .ok { core := s'
+          sdData := d.sdData ++ freshFor gs d.nextTok
+          ifData := d.ifData
+          bgData := d.bgData ++ freshFor newBg (d.nextTok + gs.length)
+          nextTok := d.nextTok + gs.length + newBg.length }
+
+def dAddInterface (U : Universe) (d : DState) (i : Nat) (pair : List Nat) : Except Err DState :=
+  match addInterface U d.core i pair with
+  | .error e => .error e
+  | .ok s' => .ok { d with core := s', ifData := d.ifData ++ [(i, d.nextTok)], nextTok := d.nextTok + 1 }
+
+def dRemoveSubdomain (d : DState) (g : Nat) : Except Err DState :=
+  match removeSubdomain d.core g with
+  | .error e => .error e
+  | .ok s' =>
+    .ok { d with
+      core := s'
+      sdData := d.sdData.filter (fun e => e.1 != g)
+      ifData := d.ifData.filter (fun e => s'.intfs.contains e.1)
+      bgData := d.bgData.filter (fun e => (s'.bgs.map (·.2)).contains e.1) }
+
+/-- hand the dictionary stored under `old` over to `new` -/
+def moveKey (old new : Nat) (l : List (Nat × Nat)) : List (Nat × Nat) :=
+  match lookup old l with
+  | some t => (l ++ [(new, t)]).filter (fun e => e.1 != old)
+  | none => l
+
+def dReplace1 (U : Universe) (d : DState) (old new : Nat) :
+    Except (Err × List Call) (DState × List Call) :=
+  match replace1 U d.core old new with
+  | .error e => .error e
+  | .ok (s', c) =>
+    .ok ({ d with
+      core := s'
+      sdData := moveKey old new d.sdData
+      bgData := match lookup old d.core.bgs with
+        | some bOld => moveKey bOld d.core.nextBg d.bgData
+        | none => d.bgData }, c)
+
+def dReplaceMany (U : Universe) (d : DState) : List (Nat × Nat) → DState × Option Err × List Call
+  | [] => (d, none, [])
+  | (old, new) :: rest =>
+    match dReplace1 U d old new with
+    | .error (e, c) => (d, some e, c)
+    | .ok (d', c) =>
+      let r := dReplaceMany U d' rest
+      (r.1, r.2.1, c ++ r.2.2)
+
+structure DResult where
+  state : DState
+  err : Option Err
+  calls : List Call
+
+def dstep (U : Universe) (d : DState) : Op → DResult
+  | .addSubdomains gs =>
+    match dAddSubdomains U d gs with
+    | .ok d' => ⟨d', none, []⟩
+    | .error e => ⟨d, some e, []⟩
+  | .addInterface i pair =>
+    match dAddInterface U d i pair with
+    | .ok d' => ⟨d', none, []⟩
+    | .error e => ⟨d, some e, []⟩
+  | .removeSubdomain g =>
+    match dRemoveSubdomain d g with
+    | .ok d' => ⟨d', none, []⟩
+    | .error e => ⟨d, some e, []⟩
+  | .replace im sm =>
+    let r := dReplaceMany U d sm
+    ⟨r.1, r.2.1, im.map Call.mortar ++ r.2.2⟩
+
+/-! ### several containers: `copy()`
+
+`copy()` makes a new container whose five dictionaries are shallow copies: the same grid objects,
+the same data dictionaries, the same boundary grids.  `BoundaryGrid.id` and the dictionary tokens
+are class-level / global counters, shared by all containers. -/
+
+structure World where
+  conts : List DState
+  nextBg : Nat
+  nextTok : Nat
+  deriving Repr
+
+def World.init : World := ⟨[DState.empty], 0, 0⟩
+
+inductive WOp where
+  /-- call `op` on container `k` -/
+  | on (k : Nat) (op : Op)
+  /-- `conts[k].copy()`, appended as a new container -/
+  | copy (k : Nat)
+
+/-- bring the global counters into a container before a call -/
+def DState.withCounters (d : DState) (nextBg nextTok : Nat) : DState :=
+  { d with core := { d.core with nextBg := nextBg }, nextTok := nextTok }
+
+def wstep (U : Universe) (w : World) : WOp → World
+  | .copy k =>
+    match w.conts[k]? with
+    | some d => { w with conts := w.conts ++ [d] }
+    | none => w
+  | .on k op =>
+    match w.conts[k]? with
+    | none => w
+    | some d =>
+      let d' := (dstep U (d.withCounters w.nextBg w.nextTok) op).state
+      { conts := w.conts.set k d', nextBg := d'.core.nextBg, nextTok := d'.nextTok }
+
+def wrun (U : Universe) (w : World) : List WOp → World
+  | [] => w
+  | o :: os => wrun U (wstep U w o) os
+
+/-- well-formed world history: every call is well-formed for the container it is made on -/
+def wfWorld (U : Universe) (w : World) : List WOp → Bool
+  | [] => true
+  | .copy k :: os => wfWorld U (wstep U w (.copy k)) os
+  | .on k op :: os =>
+    (match w.conts[k]? with
+     | some d => wfOp U (d.withCounters w.nextBg w.nextTok).core op
+     | none => true) && wfWorld U (wstep U w (.on k op)) os
 
 end PorepyVerif.C24
